@@ -13,7 +13,10 @@ def bubble_tv(ctx, test, sub, module, cfg, label, args, timeout=1800, silent=Tru
     rc, o = ctx.run_vhb(test, a, timeout=timeout, race=race, env_extra=env, perturb=perturb)
     reps = ctx.harness_report(o, "bubble " + label)
     if rc != 0 or not reps:
-        raise vlib.Trouble("bubble runner %s died (rc=%s):\n%s" % (test, rc, o[-3000:]))
+        tail = o[-3000:]
+        if "BUBBLE-STUCK" in o:     # keep the whole goroutine dump: the verdict is read off it
+            tail = o[o.index("BUBBLE-STUCK"):][:200000]
+        raise vlib.Trouble("bubble runner %s died (rc=%s):\n%s" % (test, rc, tail))
     rep = reps[-1]
     ctx.extra.setdefault("bubble", []).append(rep)
     if "DATA RACE" in o:
